@@ -322,6 +322,18 @@ impl World {
         self.env.subjects[(s.a - 1) as usize].clone().unsubscribe();
         Val::U
       }
+      "sretain" => {
+        self.env.subjects[(s.a - 1) as usize].clone().retain();
+        Val::U
+      }
+      "squery" => {
+        let subj = &self.env.subjects[(s.a - 1) as usize];
+        match s.b {
+          1 => Val::I(subj.len() as i64),
+          2 => Val::B(subj.is_empty()),
+          _ => Val::B(Observer::<Val, Val>::is_finished(subj)),
+        }
+      }
       "bnext" => {
         self.env.behaviors[(s.a - 1) as usize].clone().next(s.v.clone());
         Val::U
